@@ -3,7 +3,7 @@
     lengths), the distance matrix as the CODE computes it ([dist_matrix], the
     transcription of [_get_distances]) and as the SPECIFICATION defines it
     ([pathlen_matrix]), and the tip names.  No proofs here. *)
-From CG3 Require Import Lib.PyZ Lib.Val Lib.Rose Model.Tree Spec.TreeSpec.
+From CG3 Require Import Lib.PyZ Lib.Val Lib.Rose Model.Tree Model.TreeMid Model.TreeJson Model.TreeDist Spec.TreeSpec.
 
 Inductive op : Type :=
 | ORootedAt (nm : name)
@@ -17,8 +17,11 @@ Inductive op : Type :=
 | ONewick (esc with_len semicolon : bool)
 | ONewickRT (unmunge : bool)
 | OParse (text : list Z) (unmunge : bool)
-| OJsonRT
-| ODist.
+| OJsonRT (fx : bool)
+| ODist
+| OMidpoint (fx : bool)
+| OBifurcating
+| OTreeDistRF (other : tree).
 
 Fixpoint vtree (t : tree) : val :=
   match t with
@@ -66,14 +69,33 @@ Definition step (t : tree) (o : op) : res tree :=
   | ONewick _ _ _ => Ok t
   | ONewickRT unmunge => newick_roundtrip unmunge t
   | OParse text unmunge => make_tree unmunge text
-  | OJsonRT => json_roundtrip t
+  | OJsonRT fx => json_roundtrip_v fx t
   | ODist => Ok t
+  | OMidpoint fx =>
+      if names_ok t && negb (memb edge0_str (map tname (nodes t)))
+      then match root_at_midpoint fx t with Ok (r, _) => Ok r | Err e => Err e end
+      else Err E_OutsideModel
+  | OBifurcating => Ok (bifurcating t)
+  | OTreeDistRF _ => Ok t
   end.
+
+Definition obs_resZ (r : res Z) : val := match r with Ok z => VZ z | Err e => VE e end.
 
 Fixpoint run_ops (t : tree) (ops : list op) : val :=
   match ops with
   | [] => obs_tree t
   | [ONewick esc with_len semicolon] => VS (get_newick esc with_len semicolon t)
+  | [OTreeDistRF other] =>
+      (* tree_distance(other, "rf") both ways and against itself *)
+      VL [obs_resZ (tree_distance_rf t other); obs_resZ (tree_distance_rf other t); obs_resZ (tree_distance_rf t t)]
+  | [OMidpoint fx] =>
+      (* lengths in doubled units; the second component is the receiver afterwards *)
+      if names_ok t && negb (memb edge0_str (map tname (nodes t)))
+      then match root_at_midpoint fx t with
+           | Ok (r, o) => VL [obs_tree r; vtree o]
+           | Err e => VE e
+           end
+      else VE E_OutsideModel
   | o :: rest =>
       match step t o with
       | Ok t' => run_ops t' rest
